@@ -200,6 +200,7 @@ func main() {
 		"Not generated (debatable): duplicate node ids, two dependency entries on the same package in one lock entry, empty ids, build metadata in tags, " +
 		"a lock entry with the revision's name but another source, inactive revisions. For a missing dependency declared by several parents with " +
 		"different constraints the version is accepted if it is correct for any one parent's constraint (the property speaks of 'the declared constraint')."
+	c.Rule += " dep: a fifth of the cases list one dependency twice with different constraints (every entry counts)."
 	c.Assumptions = []string{
 		"github.com/Masterminds/semver NewVersion/NewConstraint/Constraints.Check/Version.Compare are the trusted primitives",
 		"a digest constraint is exactly sha256:<64 lowercase hex>",
